@@ -263,7 +263,8 @@ def _check_cli(text, good, at_n, run):
     try:
         goals = [f"E({k})" for k in good]
         p = subprocess.run([sys.executable, os.path.join(pd.REPO, "polar.py"), path, "--goals", *goals, "--at_n", str(at_n)],
-                           capture_output=True, text=True, timeout=300, cwd=pd.REPO, env=dict(os.environ, PYTHONHASHSEED="0"))
+                           capture_output=True, text=True, timeout=300, cwd=pd.REPO, env=dict(os.environ, PYTHONHASHSEED="0"),
+                           preexec_fn=pd.die_with_parent)
     except subprocess.TimeoutExpired:
         return None
     finally:
